@@ -67,6 +67,8 @@ type cliCase struct {
 	Drop, Keep string
 	// Multi: 0 one source; 1 the profile given twice (merged); 2 also as -base; 3 also as -diff_base
 	Multi int
+	// ZeroBase (with -base / -diff_base): the base's first value column is all zero and the report is a mean
+	ZeroBase bool
 }
 
 // pathValues: what people put into trim_path / source_path (lists, trailing separators, the root, a file name
@@ -85,6 +87,7 @@ func genCLI(t *rapid.T) *cliCase {
 	c := &cliCase{P: gen.Profile(t, hostOpts), Assigns: genAssigns(t, 4), Cmd: rapid.SampledFrom(commands).Draw(t, "cmd"),
 		Param: rapid.SampledFrom(hostileStrings).Draw(t, "param"), Gran: rapid.SampledFrom([]string{"functions", "filefunctions", "files", "lines", "addresses"}).Draw(t, "gran")}
 	c.Multi = rapid.SampledFrom([]int{0, 0, 0, 1, 2, 3}).Draw(t, "multi")
+	c.ZeroBase = rapid.Bool().Draw(t, "zerobase")
 	frameRx := []string{"", "", "", "main", ".*", "(", "zzz", "a|b"}
 	c.Drop, c.Keep = rapid.SampledFrom(frameRx).Draw(t, "dropframes"), rapid.SampledFrom(frameRx).Draw(t, "keepframes")
 	for i, a := range c.Assigns {
@@ -136,7 +139,18 @@ func checkCLI(c *cliCase, o *vk.Obs) []string {
 		req.Args = []string{"src", "src2"}
 		req.Sources["src2"] = &pp.Source{Prof: p.Copy()}
 	case 2, 3:
-		req.Sources["b"] = &pp.Source{Prof: p.Copy()}
+		b := p.Copy()
+		if c.ZeroBase {
+			// a base whose first column (the count a mean report divides by) is zero throughout
+			for _, s := range b.Sample {
+				if len(s.Value) > 1 {
+					s.Value[0] = 0
+				}
+			}
+			fl["mean"] = "true"
+			o.Label("mean-over-a-base-with-zero-counts")
+		}
+		req.Sources["b"] = &pp.Source{Prof: b}
 		req.Lists = map[string][]string{[]string{"base", "diff_base"}[c.Multi-2]: {"b"}}
 	}
 	o.Label(fmt.Sprintf("sources:%d", c.Multi))
